@@ -41,7 +41,7 @@ def emit(R):
         outs.append('#line %d "%s"\n%s%s' % (p.line, X.REPO + "/" + p.rel, chdr, b))
         fns.append({"name": "TasmanianSparseGrid::" + nm, "file": p.rel, "line": p.line, "loops": X.count_loops(b)})
         srcs.append(p.body); emis.append(b)
-    R.require({"R10-member": 30, "R5-local-vector": 7, "R8-libm-pow": 3, "R8-libm-sqrt": 3, "R3-template-param": 10, "R10-family-call": 5, "R5-return-vector": 1, "R9-throw-runtime_error": 1})
+    R.require({"R10-member": 30, "R5-local-vector": 7, "R8-libm-pow": 1, "R8-libm-sqrt": 1, "R3-template-param": 10, "R10-family-call": 5, "R5-return-vector": 1, "R9-throw-runtime_error": 1})
     info = {"functions": fns, "rules_fired": {k: v for k, v in R.counts.items() if v},
             "fidelity": X.fidelity("\n".join(srcs), "\n".join(emis), extra_vocab=["FloatType", "domain_transform_a", "domain_transform_b", "conformal_asin_power", "size", "base", "get", "GridGlobal",
                                                                                "getAlpha", "getBeta", "getNumDimensions", "getRule", "pow", "sqrt", "rate", "shift", "sqrt_b", "jacobian_diag", "runtime_error", "return", "double"], slack=12),
